@@ -175,6 +175,9 @@ m("C13-e", "C13", "controller/src/controller.rs", "\t\tmatches!(val[\"method\"].
 m("C14-e", "C14", "impls/src/backends/lmdb.rs", "\t\t\t\t\tk.mask_master_key(&mask_value)?;\n\t\t\t\t\tSome(mask_value)", "\t\t\t\t\tSome(mask_value)", "C14.R6")
 m("C14-f", "C14", "impls/src/backends/lmdb.rs", "\t\t\t\t\tk.mask_master_key(&mask_value)?;\n\t\t\t\t\tSome(mask_value)", "\t\t\t\t\tk.mask_master_key(&mask_value)?;\n\t\t\t\t\tSome(secp::key::SecretKey::new(&k.secp(), &mut thread_rng()))", "C14.R6")
 
+m("C15-e", "C15", "libwallet/src/internal/keys.rs", "p.path[0] = ChildNumber::from(<u32>::from(p.path[0]) + 1);", "p.path[0] = ChildNumber::from(<u32>::from(p.path[0]) + 0);", "C15.R5")
+m("C15-f", "C15", "libwallet/src/internal/keys.rs", "\tif wallet.acct_path_iter().any(|l| l.label == label) {\n\t\treturn Err(Error::AccountLabelAlreadyExists(label));\n\t}\n\n\t// We're always using paths", "\t// We're always using paths", "C15.R5")
+
 
 def for_property(prop):
     return [x for x in M if x["property"] == prop]
